@@ -80,6 +80,11 @@ def events(dn):
             ev.append(("flush_all", (), dict(delay=d, noreply=nr)))
         ev.append(("set_many", ({KEYS[0]: BIG, KEYS[1]: b"x"},), dict(noreply=nr)))
         ev.append(("set_many", ({KEYS[0]: b"1", KEYS[1]: BIG},), dict(noreply=nr)))
+    # noreply=None given explicitly is "use the default", like leaving it out; an empty value is a value
+    for name, args in (("incr", (KEYS[0], 1)), ("decr", (KEYS[0], 1)), ("delete", (KEYS[0],)), ("touch", (KEYS[0],))):
+        ev.append((name, args, dict(noreply="EXPLICIT-NONE")))
+    for nr in nrs:
+        ev.append(("set", (KEYS[0], b""), dict(noreply=nr)))
     # an expiry given as an absolute unix time (more than 30 days): the item dies at that moment, not later
     for nr in nrs:
         ev.append(("set", (KEYS[0], b"x"), dict(expire=ABS_SOON, noreply=nr)))
@@ -177,7 +182,7 @@ def step(prefix, dn, state, ev, variant=DEFAULT_VARIANT):
     (new_state, got, want, content_diff)."""
     ssnap, asnap, tokens = state
     name, args, kw = ev
-    kw = {k: v for k, v in kw.items() if v is not None or k != "noreply"}
+    kw = {k: (None if v == "EXPLICIT-NONE" else v) for k, v in kw.items() if v is not None or k != "noreply"}
     a = AbstractCache.load(asnap)
     if name == "advance":
         a.advance(args[0])
